@@ -40,6 +40,25 @@ def case(col, kind, keys, diag, rng, T=40):
         col.add(None)
 
 
+def offset_case(col, kind, diag, rng, T=60):
+    """a history far away from the origin (mean 1000, sd 0.1 next to a standard-normal parameter): the tuned matrix must still be the
+    regularised variance / covariance (a one-pass E[x^2] - E[x]^2 formula cancels catastrophically in float32)"""
+    hist = {"mu": jnp.asarray(1000.0 + 0.1 * rng.normal(size=(T, 2)), dtype=jnp.float32), "z": jnp.asarray(rng.normal(size=(T,)), dtype=jnp.float32)}
+    ms = {"mu": jnp.zeros((2,), jnp.float32), "z": jnp.float32(0.0)}
+    K = gs.NUTSKernel if kind == "NUTS" else gs.HMCKernel
+    k = K(["z", "mu"], initial_step_size=0.1, mm_diag=diag)
+    k.set_model(gs.DictInterface(lambda s: 0.0))
+    key = jax.random.PRNGKey(0)
+    out = k._tune_slow(key, k.init_state(key, ms), ms, EpochConfig(EpochType.SLOW_ADAPTATION, T, 1, None).to_state(1, 0), hist)
+    got = np.asarray(out.kernel_state.inverse_mass_matrix, np.float64)
+    flat = np.asarray(jax.vmap(lambda p: ravel_pytree(p)[0])(hist), dtype=np.float64)
+    want = np.var(flat, axis=0, ddof=1) + 0.001 if diag else np.atleast_2d(np.cov(flat, rowvar=False)) + 0.001 * np.eye(flat.shape[1])
+    ok = got.shape == want.shape and np.allclose(got, want, rtol=2e-2, atol=2e-4)
+    col.add(None if ok else {"sig": "native::mm::offset_history", "what": f"history with mean 1000 / sd 0.1: tuned {'vector' if diag else 'matrix diagonal'} "
+                             f"{(got if got.ndim == 1 else np.diag(got)).round(5).tolist()}, regularised sample variance {(want if want.ndim == 1 else np.diag(want)).round(5).tolist()}",
+                             "input": {"kernel": kind, "diagonal": diag, "history": "mu ~ 1000 + 0.1*N(0,1) (2 entries), z ~ N(0,1)"}})
+
+
 def engine_case(col, kind, keys, diag, seed):
     """two slow-adaptation epochs through the real engine with a second kernel on other keys"""
     K = gs.NUTSKernel if kind == "NUTS" else gs.HMCKernel
@@ -83,6 +102,10 @@ def bounded(tier, seed):
             for diag in (True, False):
                 case(col, kind, keys, diag, rng)
                 n += 1
+    for kind in ("NUTS", "HMC"):
+        for diag in (True, False):
+            offset_case(col, kind, diag, rng)
+            n += 1
     leaves = jax.tree_util.tree_leaves({"b": 1, "a": 2, "W": 3})
     if leaves != [3, 2, 1]:
         col.add({"sig": "native::infrastructure::tree_leaves_order", "what": f"tree_leaves of a dict is no longer sorted-key order: {leaves}", "input": {}})
@@ -93,7 +116,7 @@ def bounded(tier, seed):
     return {
         "evaluations": col.evals, "distinct_nontrivial": n,
         "rule": (f"BOUNDED: real NUTSKernel/HMCKernel._tune_slow on seeded random histories (40 draws) for {len(key_sets)} position-key tuples (non-alphabetical orders, "
-                 "scalar / vector / (2,3)-matrix / length-1 parameters with very different scales, foreign keys present in the history), diagonal and dense mode; "
+                 "scalar / vector / (2,3)-matrix / length-1 parameters with very different scales, foreign keys present in the history), diagonal and dense mode; a history with mean 1000 and sd 0.1 (float32 cancellation); "
                  "expected = var(ddof=1)+0.001 / cov+0.001*I of the history flattened with ravel_pytree per draw. one real engine run (thorough: two, and all key permutations) with "
                  f"two slow-adaptation epochs and a co-existing RW kernel: the matrix in force after each epoch is computed from that epoch's own stored history. seed={seed}"),
         "samples": [{"kernel": "NUTS", "position_keys": ["b", "a"], "diagonal": True}, {"kernel": "HMC", "position_keys": ["c", "W", "b"], "diagonal": False}],
